@@ -14,7 +14,7 @@ package parser
 // token, and every caller must branch on the flag before touching the token: dereferencing it
 // anyway is a Go nil-pointer panic on malformed input instead of a diagnostic.
 spec fn okTok(t *token.Token) bool = t != nil && t.Location() != nil && t.Span() != nil && t.Span().StartPos != nil && t.Span().EndPos != nil
-spec fn wfP(p *Parser) bool = p != nil && p.lexer != nil && okTok(p.lookahead) && okTok(p.secondLookahead) && okTok(p.thirdLookahead) && 0 <= p.lexer.start && p.lexer.start <= p.lexer.cursor && p.lexer.cursor <= len(p.lexer.source)
+spec fn wfP(p *Parser) bool = p != nil && p.lexer != nil && okTok(p.lookahead) && okTok(p.secondLookahead) && okTok(p.thirdLookahead) && 0 <= p.lexer.start && p.lexer.start == p.lexer.cursor && p.lexer.cursor <= len(p.lexer.source)
 
 // recording a diagnostic touches the diagnostic list only (its header and its own backing
 // array); trusted
